@@ -113,6 +113,11 @@ func HTML(t *simkit.Tape, o *simkit.Outcome, full bool) {
 			judged++
 		}
 	}
+	if t.Bool(1, 3) && cfg.Doctype == 0 {
+		cfg2 := model.DrawHTMLConfig(t)
+		cfg2.Doctype = 0
+		interleavedParsers(t, o, P, "html", data, model.GenHTML(t, cfg2))
+	}
 	o.ProbeN("judged-inputs", judged)
 	o.NonTrivial = judged >= 3
 	o.Fingerprint = simkit.Hash64(string(data))
